@@ -161,6 +161,7 @@ class Models:
         R(struct.pack, self.m_pack)
         R(struct.unpack, self.m_unpack)
         R(struct.unpack_from, self.m_unpack_from)
+        R(int.from_bytes, self.m_from_bytes)
         R(struct.calcsize, lambda I, a, k: VInt(struct.calcsize(I.concrete_str(a[0]))))
         R(codecs.encode, self.m_encode)
         R(codecs.decode, self.m_decode)
@@ -428,6 +429,22 @@ class Models:
             I.raise_py(struct.error)
         return VTuple([self.unpack_core(I, le, ch, b.term)])
 
+    def m_from_bytes(self, I, a, k):
+        # int.from_bytes(b, 'little' | 'big') unsigned: any length (the empty string gives 0); agrees with the struct image for 1/2/4/8 bytes
+        b = a[0]
+        order = a[1] if len(a) > 1 else k.get('byteorder')
+        if not isinstance(b, VBytes) or order is None or (k.get('signed') is not None):
+            raise OutOfSubset('int.from_bytes form')
+        o = I.concrete_str(order)
+        if o not in ('little', 'big'):
+            I.raise_py(ValueError)
+        le = z3.BoolVal(o == 'little')
+        t = ufun('from_bytes', BoolSort, StringSort, IntSort)(le, b.term)
+        I.ctx.assume(z3.And(t >= 0, z3.Implies(z3.Length(b.term) == 0, t == 0)))
+        for size, ch in ((1, 'B'), (2, 'H'), (4, 'I'), (8, 'Q')):
+            I.ctx.assume(z3.Implies(z3.Length(b.term) == size, t == unpacked(ch, le, b.term)))
+        return VInt(t)
+
     def m_unpack_from(self, I, a, k):
         le, ch = self.split_fmt(I, a[0])
         data, off = a[1], a[2] if len(a) > 2 else VInt(0)
@@ -458,6 +475,11 @@ class Models:
         ok = ufun('decodable_' + enc.replace('-', ''), StringSort, BoolSort)
         if not I.ctx.branch(ok(b.term)):
             I.raise_py(UnicodeDecodeError)
+        # trusted codec facts: ascii / latin-1 decode one character per byte, utf-8 at most one
+        if enc in ('ascii', 'latin-1'):
+            I.ctx.assume(z3.Length(f(b.term)) == z3.Length(b.term))
+        elif enc == 'utf-8':
+            I.ctx.assume(z3.Length(f(b.term)) <= z3.Length(b.term))
         return VStr(f(b.term))
 
     def m_hexlify(self, I, a, k):
